@@ -177,12 +177,12 @@ func VerifC18Readers() {
 	mark := verifTraceMark()
 	t.Dispatch([]byte("abc 1 1500000000"))
 	if verifIsSymbolic() {
-		verifAssert(verifCalledSince(mark, "(*sync/atomic.Value).Load") == 1, "dispatch-loads-snapshot-once")
+		verifAssert(verifCalledSince(mark, "(*sync/atomic.Value).Load") == 1, "structural/dispatch-loads-snapshot-once")
 	}
 	mark = verifTraceMark()
 	t.DispatchAggregate([]byte("abc 1 1500000000"))
 	if verifIsSymbolic() {
-		verifAssert(verifCalledSince(mark, "(*sync/atomic.Value).Load") == 1, "dispatchaggregate-loads-snapshot-once")
+		verifAssert(verifCalledSince(mark, "(*sync/atomic.Value).Load") == 1, "structural/dispatchaggregate-loads-snapshot-once")
 	}
 	verifCover("end")
 }
